@@ -116,6 +116,28 @@ def build():
                 return f
             R.add(f"equivalence[{flav}, rot_{axis}]", kind="lia", samples=25, max_paths=400)(mk())
 
+    def mk_rounds(comp, rounds):
+        def f(ctx):
+            v = ctx.int("value", 0, 255)
+            d = ctx.int("d", 0, 16)
+            connA, exA = _mk(ctx, comp)
+            outs = list(exA.outcomes)
+            resA = ctx.call(P.templated_rounds_register_measurement, connA, Template("a"), d, {"a": v}, rounds)
+            sentA, evA = list(connA.sent), list(exA.events)
+            connB, exB = _mk(ctx, comp)
+            exB.outcomes = list(outs)
+            resB = ctx.call(P.templated_rounds_register_measurement, connB, v, d, None, rounds)
+            ctx.check("same-number-of-subroutines", len(sentA) == len(connB.sent) == rounds + 1)
+            for k in range(min(len(sentA), len(connB.sent))):
+                ctx.check(f"subroutine[{k}]-identical", ctx.eq(ctx.getattr(sentA[k], "instructions"), ctx.getattr(connB.sent[k], "instructions")))
+            from .exec_common import events_eq
+            ctx.check("controller-performs-the-same-gates-and-measurements", events_eq(ctx, evA, list(exB.events)))
+            ctx.check("host-reads-the-same-values", ctx.eq(list(resA), list(resB)))
+            ctx.check("connection-left-in-the-same-state", _builder_state(connA) == _builder_state(connB))
+        return f
+    for flav, comp in (("vanilla", None), ("nv", NVSubroutineTranspiler)):
+        R.add(f"equivalence[{flav}, two pre-compiled rounds measuring into registers]", kind="lia", samples=15, max_paths=400)(mk_rounds(comp, 2))
+
     def queued(ctx):
         v = ctx.int("value", 0, 255)
         connA, exA = _mk(ctx)
